@@ -58,6 +58,9 @@ def main():
                         replays.append({"error": str(e)})
             results[pid] = {"exit": p.returncode, "lines": lines, "replays": replays, "wall_s": round(time.time() - t0, 1),
                             "stderr_tail": p.stderr.strip().split("\n")[-1][:300]}
+            if p.returncode not in (0, 1) or (p.returncode == 1 and not lines):
+                # the check itself broke: keep what it said
+                open("/tmp/seval_broken_%s_%s.txt" % (name, pid), "w").write(p.stdout[-20000:] + "\n----- stderr\n" + p.stderr[-20000:])
             print("%s: exit=%d %s (%.0fs)" % (pid, p.returncode, "; ".join(lines)[:300], time.time() - t0))
     finally:
         subprocess.run(["git", "-C", "/repo", "worktree", "remove", "--force", wt])
